@@ -148,6 +148,26 @@ def run(ctx):
             tolerated = [names.get(v) for v, tg in t["arms"]]
             ok = tolerated == ["ConstraintViolation"]
             det = "tolerated sqlite error codes: %s; the row is re-read afterwards" % tolerated
+        elif qs:
+            # the same test written as a comparison (`if err.code == ErrorCode::ConstraintViolation`, a match guard): the
+            # error codes compared against are the variant constants built for the `==` calls on ErrorCode; tolerated
+            # means the equal side goes on to the re-read and the other side cannot
+            eqs = [(sw, t_t, f_t, cbb) for (sw, t_t, f_t, cbb) in fba.switches_on_call(r"<libsqlite3_sys::error::ErrorCode as core::cmp::PartialEq>::eq")]
+            tolerated = []
+            sides_ok = bool(eqs)
+            for (sw, t_t, f_t, cbb) in eqs:
+                vs = set()
+                for a in fn.blocks[cbb]["term"]["args"]:
+                    for x in fba.ref_chain(op_local(a)) if op_local(a) is not None else []:
+                        for d in fba.defs.get(x, []):
+                            if d[0] == "stmt" and d[3]["k"] == "agg" and d[3].get("adt") == "libsqlite3_sys::error::ErrorCode":
+                                vs.add(d[3].get("variant"))
+                tolerated.extend(sorted(vs))
+                ffa = FA.of(fn)
+                sides_ok = sides_ok and ffa.path([t_t], qs, incl=True) is not None and ffa.path([f_t], qs, incl=True) is None
+            ok = sides_ok and tolerated == ["ConstraintViolation"]
+            if eqs:
+                det = "tolerated sqlite error codes (by comparison): %s; only the equal side goes on to re-read the row" % tolerated
     ctx.ob("R16.5", "from_name|tolerates-only-ConstraintViolation", ok, where=fn.span, detail=det)
 
     # ---- R16.6
